@@ -73,12 +73,13 @@ def _ctor_cfgs():
     out = []
     for c in ('Rx', 'Ry', 'Rz', 'AngVec', 'EulerVec', 'Exp'):
         out.append({'ctor': c, 'mode': 'symbolic'})
+    # Eul / OA / RPY: the unit-quaternion constructor extracts from a matrix product of three symbolic rotations; the
+    # symbolic variants were tried as thorough-tier configurations and did not finish within 40 minutes (path explosion
+    # of r2q over three angles), so these constructors are compared at concrete values in both tiers
     for c in ('Eul', 'OA'):
         out.append({'ctor': c, 'mode': 'concrete'})
-        out.append({'ctor': c, 'mode': 'symbolic', 'tier': 'thorough'})
     for o in ('zyx', 'xyz', 'yxz'):
         out.append({'ctor': 'RPY', 'order': o, 'mode': 'concrete'})
-        out.append({'ctor': 'RPY', 'order': o, 'mode': 'symbolic', 'tier': 'thorough'})
     return out
 
 
